@@ -82,6 +82,11 @@ def history(draw):
     steps = []
     for i in range(n):
         s = {"cmd": draw(st.sampled_from(DIRECT)), "status": draw(status_strategy()), "raw": draw(st.booleans())}
+        if draw(st.integers(0, 3)) == 0:
+            # a caller-built command of any fixed-length opcode (e.g. A1h = BLANK on MMC, ATA PASS-THROUGH(12) on SBC)
+            s["cmd"] = "opcode:%d" % draw(st.one_of(st.sampled_from([0xA1, 0x85, 0x00, 0x12, 0xA0]),
+                                                    st.integers(0, 0x5F), st.integers(0x80, 0xBF)))
+        s["via"] = draw(st.sampled_from(["device", "facade_execute"]))
         if s["status"] == 0x02:
             s["sense"] = draw(sense_strategy())
         if i and draw(st.integers(0, 3)) == 0:
@@ -156,21 +161,33 @@ def check_history(case):
         return queue.pop(0) if queue else (0, None)
 
     transports.set_handler(handler)
-    dev = transports.make_sgio() if transport == "sgio" else transports.make_iscsi()
+    dev = transports.make_sgio(readwrite=True) if transport == "sgio" else transports.make_iscsi()
     nt = False
     seen_fail = False
     prev = None
+    from pyscsi.pyscsi.scsi import SCSI
+
+    facade = SCSI(None)
+    facade.device = dev
     try:
         for step in case["steps"]:
             if step.get("reuse") and prev is not None:
                 c = prev
+            elif step["cmd"].startswith("opcode:"):
+                from pyscsi.pyscsi.scsi_cdb_testunitready import TestUnitReady
+                from pyscsi.pyscsi.scsi_opcode import OpCode
+
+                c = TestUnitReady(OpCode("CALLER_BUILT", int(step["cmd"][7:]), {}))
             else:
                 with lib("constructor"):
                     c = build_direct(step["cmd"])
             status, sense = step["status"], step.get("sense")
             queue[:] = [(status, sense)]
             try:
-                dev.execute(c, en_raw_sense=step["raw"])
+                if step.get("via") == "facade_execute":
+                    facade.execute(c, en_raw_sense=step["raw"])
+                else:
+                    dev.execute(c, en_raw_sense=step["raw"])
                 outcome, exc = "return", None
             except Exception as e:  # noqa
                 outcome, exc = "raise", e
@@ -189,6 +206,10 @@ def check_history(case):
     cl = [transport]
     if any(s.get("reuse") for s in case["steps"]):
         cl.append("reexecute")
+    if any(s.get("via") == "facade_execute" for s in case["steps"]):
+        cl.append("facade_execute")
+    if any(s["cmd"].startswith("opcode:") for s in case["steps"]):
+        cl.append("caller_built_opcode")
     return nt, cl
 
 
@@ -222,7 +243,7 @@ def check_sweep(case):
         return queue.pop(0) if queue else (0, None)
 
     transports.set_handler(handler)
-    dev = transports.make_sgio() if transport == "sgio" else transports.make_iscsi()
+    dev = transports.make_sgio(readwrite=True) if transport == "sgio" else transports.make_iscsi()
     try:
         if method == "direct":
             c = build_direct("read10")
@@ -305,7 +326,7 @@ def replay(ctx, subject, case):
 
 def floors(tier, classes, subjects, evaluations, distinct):
     out = []
-    for c in ("sgio", "iscsi", "reexecute", "sweep_direct", "sweep_facade"):
+    for c in ("sgio", "iscsi", "reexecute", "sweep_direct", "sweep_facade", "facade_execute", "caller_built_opcode"):
         if not classes.get(c):
             out.append("class %s never generated" % c)
     return out
